@@ -28,6 +28,7 @@ import (
 	"time"
 
 	"github.com/onsi/gomega"
+	"github.com/synnaxlabs/synnax/pkg/distribution/channel"
 	"verif/lib/harness"
 )
 
@@ -36,6 +37,7 @@ func main() {
 	gomega.SetDefaultEventuallyTimeout(20 * time.Second)
 	gomega.SetDefaultEventuallyPollingInterval(2 * time.Millisecond)
 	harness.Main("C07", "exploration",
+		harness.Layer{Name: "min", Run: layerMin},
 		harness.Layer{Name: "diff", Run: layerDiff},
 	)
 }
@@ -62,6 +64,24 @@ func layerDiff(h *harness.H) {
 		ctx, cancel := context.WithCancel(context.Background())
 		defer cancel()
 		newCase(h, c, h.Rand("diff", c)).run(ctx)
+	})
+}
+
+// layerMin runs the hand-written minimal cases (scenarios.go).
+func layerMin(h *harness.H) {
+	h.AddRule("min: one case = one hand-written two-node scenario (partial frames through a peer-only / gateway+peer writer, " +
+		"read loop over a channel with and one without data, commit with one leaseholder unable to commit); distinct = scenario shape")
+	scs := minScenarios()
+	workers := len(scs)
+	if _, rp := h.Replaying(); rp {
+		workers = 1
+	}
+	pool(h, "min", len(scs), workers, func(c int) {
+		h.Eval()
+		ctx, cancel := context.WithCancel(context.Background())
+		defer cancel()
+		k := &kase{h: h, layer: "min", c: c, spec: scs[c], committed: map[channel.Key][]sample{}, polluted: map[channel.Key]bool{}}
+		k.run(ctx)
 	})
 }
 
